@@ -13,7 +13,7 @@ OWNER_BY_INV = {
 
 GOAL_CFGS = {   # group -> [(config of Goals_Client.tla, goals it must reach)]
     "tight": [("GG_tight_lost.cfg", ["lostDropThenPush", "lagged"]),
-              ("GG_tight_misc.cfg", ["abandonThenAccept", "sendErrOnUnsub", "closeThenLeave", "duplicateSubId"])],
+              ("GG_tight_misc.cfg", ["abandonThenAccept", "sendErrOnUnsub", "closeThenLeave", "duplicateSubId", "reuseThenDropEnded"])],
 }
 
 GROUP_OPS = {   # mirror of harness/src/client_scen.rs: group() - (h, kind, ids taken)
